@@ -71,9 +71,11 @@ def _limit_memory():
 
 
 class Watchdog(threading.Thread):
-    def __init__(self, root_pid):
+    def __init__(self, root_pid, max_age_s=None):
         super().__init__(daemon=True)
         self.root = root_pid
+        self.max_age_s = max_age_s
+        self.first_seen = {}
         self.stop = False
         self.killed = []
         self.peak_kb = 0
@@ -84,7 +86,9 @@ class Watchdog(threading.Thread):
                 if not _is_descendant(pid, self.root):
                     continue
                 self.peak_kb = max(self.peak_kb, rss)
-                if rss > RSS_CAP_KB:
+                # Kani's --harness-timeout was seen not to fire (a cbmc ran 36 min under a 25 min limit): enforce it here
+                age = time.time() - self.first_seen.setdefault(pid, time.time())
+                if (self.max_age_s and age > self.max_age_s) or rss > RSS_CAP_KB:
                     try:
                         os.kill(pid, 9)
                         self.killed.append((pid, rss))
@@ -115,7 +119,7 @@ def run(scratch, obligations, extra_flags=(), capture_playback=False):
     t0 = time.time()
     proc = subprocess.Popen(cmd, cwd=crate, env=env, stdout=subprocess.PIPE, stderr=subprocess.STDOUT, text=True,
                             preexec_fn=_limit_memory)
-    wd = Watchdog(proc.pid)
+    wd = Watchdog(proc.pid, max_age_s=timeout + 120)
     wd.start()
     try:
         out, _ = proc.communicate(timeout=timeout * max(1, (len(obligations) + JOBS - 1) // JOBS) + 900)
